@@ -508,3 +508,257 @@ Theorem block_poryswitch_contributes :
 Proof. exact TagRename.BlockStep.block_poryswitch_contributes. Qed.
 Print Assumptions block_poryswitch_contributes.
 
+
+(* ---- the twin of a script block (TwinParse.v): one statement poryswitch directly in the block of a script / map script, both case
+   forms. twin_script_block: if the original block parses, the block in which the poryswitch is replaced by the body tokens of the
+   selected case (same tokens, same positions) parses too, to the same statements up to the shift of tags and ids
+   (twin_blocks_same_shape: the same SHAPE, so by compile_same_shape the same output once lifted to the program), with the same
+   inline data; twin_block_step: the same step under any break / continue scopes, with the look-ahead premises LA / LC;
+   block_pory_step: no selected case = the error in normal mode, nothing appended in lint mode; stmt_la: the statement parser
+   with the LAST token directly in front of the replaced rest. continue_counterexample (TwinParse.v): `continue` as the end of
+   the selected case satisfies the 'last statement of its block' rule inside the poryswitch although statements follow in the
+   loop - the twin is rejected (boundary B1; premise LC). NOT proved: nesting in control constructs, several poryswitches,
+   the lift to parse_program. ---- *)
+From Pory Require TwinParse. Open Scope list_scope.
+Theorem twin_script_block :
+  forall (av : list (text * autovar)) (sw : list (text * text)) (ee : bool) (pf : toks -> Parser.res (token * text * text * toks))
+    (c : list (text * text)),
+  Independence.format_advs pf ->
+  Independence.format_local pf ->
+  Independence.format_lt pf ->
+  forall (script : text) (x : toks) (b1 : list stmt) (i1 : impdata) (z : toks) (sc : text) (sv : option text) (ts1 : toks) 
+    (F : nat) (cases : list (text * (list stmt * impdata))) (ts2 : toks) (ss : list stmt) (imp' : impdata) (start : token) 
+    (f : nat) (b : list stmt) (imp : impdata) (y : toks),
+  eof_ended x ->
+  TwinParse.srun av sw ee pf c script [] [] x b1 i1 z ->
+  curis PORYSWITCH z = true ->
+  poryswitch_header sw ee z = Parser.Ok (sc, sv, ts1) ->
+  5 * Datatypes.length z <= F ->
+  parse_pory_cases av sw ee pf c F script [] [] (cur ts1) ts1 [] = Parser.Ok (cases, ts2) ->
+  pory_select cases sv = Some (ss, imp') ->
+  5 * Datatypes.length x + 3 <= f ->
+  parse_block av sw ee pf c f script [] [] start x [] imp0 = Parser.Ok (b, imp, y) ->
+  exists
+    (pre : list token) (l : list (text * (list stmt * impdata))) (key : text) (l1 l2 : list (text * (list stmt * impdata))) 
+  (tsc ra tsn : toks) (body : list token) (b3 : list stmt) (i3 : impdata),
+    x = pre ++ z /\
+    cases = rev l /\
+    l = l1 ++ (key, (ss, imp')) :: l2 /\
+    assoc l2 key = None /\
+    (key = sval sv \/ key = t "_" /\ assoc l (sval sv) = None) /\
+    TwinParse.case_seq av sw ee pf c script [] [] ts1 l1 tsc /\
+    TwinParse.case_at av sw ee pf c script [] [] tsc key ss imp' ra tsn /\
+    TwinParse.case_seq av sw ee pf c script [] [] tsn l2 ts2 /\
+    curis RBRACE ts2 = true /\
+    adv (adv tsc) = body ++ ra /\
+    b = b1 ++ ss ++ b3 /\
+    imp = impadd i1 (impadd imp' i3) /\
+    parse_block av sw ee pf c f script [] [] start (adv ts2) [] imp0 = Parser.Ok (b3, i3, y) /\
+    (let rest := adv ts2 in
+     let s1 := Independence.sh z (body ++ rest) in
+     let s2 := Independence.sh ra rest in
+     Datatypes.length (pre ++ body ++ rest) < Datatypes.length x /\
+     parse_block av sw ee pf c f script [] [] start (pre ++ body ++ rest) [] imp0 =
+     Parser.Ok
+       (map (Independence.g_stmt s1) b1 ++ map (Independence.g_stmt s2) ss ++ b3,
+        impadd (Independence.g_imp s1 i1) (impadd (Independence.g_imp s2 imp') i3), y)).
+Proof. exact TwinParse.twin_script_block. Qed.
+Print Assumptions twin_script_block.
+
+Theorem twin_blocks_same_shape :
+  forall (s1 s2 : nat -> nat) (b1 ss b3 : list stmt),
+  shape (map (Independence.g_stmt s1) b1 ++ map (Independence.g_stmt s2) ss ++ b3) = shape (b1 ++ ss ++ b3).
+Proof. exact TwinParse.twin_blocks_same_shape. Qed.
+Print Assumptions twin_blocks_same_shape.
+
+Theorem twin_block_step :
+  forall (av : list (text * autovar)) (sw : list (text * text)) (ee : bool) (pf : toks -> Parser.res (token * text * text * toks))
+    (c : list (text * text)),
+  Independence.format_advs pf ->
+  Independence.format_local pf ->
+  Independence.format_lt pf ->
+  forall (script : text) (bs cs : list nat) (z : toks) (sc : text) (sv : option text) (ts1 : toks) (F : nat)
+    (cases : list (text * (list stmt * impdata))) (ts2 : toks) (ss : list stmt) (imp' : impdata),
+  eof_ended z ->
+  curis PORYSWITCH z = true ->
+  poryswitch_header sw ee z = Parser.Ok (sc, sv, ts1) ->
+  5 * Datatypes.length z <= F ->
+  parse_pory_cases av sw ee pf c F script bs cs (cur ts1) ts1 [] = Parser.Ok (cases, ts2) ->
+  pory_select cases sv = Some (ss, imp') ->
+  exists
+    (l : list (text * (list stmt * impdata))) (key : text) (l1 l2 : list (text * (list stmt * impdata))) (tsc ra tsn : toks) 
+  (body : list token),
+    cases = rev l /\
+    l = l1 ++ (key, (ss, imp')) :: l2 /\
+    assoc l2 key = None /\
+    (key = sval sv \/ key = t "_" /\ assoc l (sval sv) = None) /\
+    TwinParse.case_seq av sw ee pf c script bs cs ts1 l1 tsc /\
+    TwinParse.case_at av sw ee pf c script bs cs tsc key ss imp' ra tsn /\
+    TwinParse.case_seq av sw ee pf c script bs cs tsn l2 ts2 /\
+    curis RBRACE ts2 = true /\
+    adv (adv tsc) = body ++ ra /\
+    ra <> [] /\
+    Datatypes.length (adv ts2) < Datatypes.length ra /\
+    (forall (f : nat) (start : token) (acc : list stmt) (i : impdata),
+     5 * Datatypes.length z + 3 <= f ->
+     parse_block av sw ee pf c f script bs cs start z acc i =
+     parse_block av sw ee pf c f script bs cs start (adv ts2) (acc ++ ss) (impadd i imp')) /\
+    (let rest := adv ts2 in
+     let s := Independence.sh ra rest in
+     TwinParse.LA ra rest ->
+     cs = [] \/ TwinParse.LC ra rest ->
+     TwinParse.srun av sw ee pf c script (map s bs) (map s cs) (body ++ rest) (map (Independence.g_stmt s) ss) (Independence.g_imp s imp') rest /\
+     (forall (f : nat) (start : token) (acc : list stmt) (i : impdata),
+      5 * Datatypes.length (body ++ rest) + 3 <= f ->
+      parse_block av sw ee pf c f script (map s bs) (map s cs) start (body ++ rest) acc i =
+      parse_block av sw ee pf c f script (map s bs) (map s cs) start rest (acc ++ map (Independence.g_stmt s) ss)
+        (impadd i (Independence.g_imp s imp')))).
+Proof. exact TwinParse.twin_block_step. Qed.
+Print Assumptions twin_block_step.
+
+Theorem block_pory_step :
+  forall (av : list (text * autovar)) (sw : list (text * text)) (ee : bool) (pf : toks -> Parser.res (token * text * text * toks))
+    (c : list (text * text)),
+  Independence.format_advs pf ->
+  Independence.format_lt pf ->
+  forall (script : text) (bs cs : list nat) (z : toks) (sc : text) (sv : option text) (ts1 : toks) (F : nat)
+    (cases : list (text * (list stmt * impdata))) (ts2 : toks),
+  eof_ended z ->
+  curis PORYSWITCH z = true ->
+  poryswitch_header sw ee z = Parser.Ok (sc, sv, ts1) ->
+  5 * Datatypes.length z <= F ->
+  parse_pory_cases av sw ee pf c F script bs cs (cur ts1) ts1 [] = Parser.Ok (cases, ts2) ->
+  forall (f : nat) (start : token) (acc : list stmt) (i : impdata),
+  5 * Datatypes.length z + 3 <= f ->
+  parse_block av sw ee pf c f script bs cs start z acc i =
+  match pory_select cases sv with
+  | Some (ss, imp') => parse_block av sw ee pf c f script bs cs start (adv ts2) (acc ++ ss) (impadd i imp')
+  | None => if ee then err_tok (cur z) "no poryswitch case found" else parse_block av sw ee pf c f script bs cs start (adv ts2) acc i
+  end.
+Proof. exact TwinParse.block_pory_step. Qed.
+Print Assumptions block_pory_step.
+
+Theorem stmt_la :
+  forall ra rb : toks,
+  ra <> [] ->
+  rb <> [] ->
+  forall (av : list (text * autovar)) (sw : list (text * text)) (pf : toks -> Parser.res (token * text * text * toks)) (c : list (text * text)),
+  (forall (ts : toks) (tk : token) (v sty : text) (ts' : toks), pf ts = Parser.Ok (tk, v, sty, ts') -> forall a : toks, advs a ts -> advs a ts') ->
+  (forall (x : toks) (tk : token) (v sty : text) (y : toks),
+   pf x = Parser.Ok (tk, v, sty, y) ->
+   Independence.Gw ra 1 y -> pf (Independence.swap ra rb x) = Parser.Ok (tk, v, sty, Independence.swap ra rb y)) ->
+  TwinParse.LA ra rb ->
+  forall (ee : bool) (f : nat) (script : text) (bs cs : list nat) (x : toks) (ss : list stmt) (imp : impdata) (y : toks),
+  parse_stmt av sw ee pf c f script bs cs x = Parser.Ok (ss, imp, y) ->
+  Independence.Gw ra 1 y ->
+  cs = [] \/ TwinParse.LC ra rb ->
+  parse_stmt av sw ee pf c f script (map (Independence.sh ra rb) bs) (map (Independence.sh ra rb) cs) (Independence.swap ra rb x) =
+  Parser.Ok (map (Independence.g_stmt (Independence.sh ra rb)) ss, Independence.g_imp (Independence.sh ra rb) imp, Independence.swap ra rb y).
+Proof. exact TwinParse.stmt_la. Qed.
+Print Assumptions stmt_la.
+
+Theorem twin_script_block_real :
+  forall (av : list (text * autovar)) (sw : list (text * text)) (ee : bool) (fc : fontcfg) (font : text) (ml : Z) (c : list (text * text))
+    (script : text) (x : toks) (b1 : list stmt) (i1 : impdata) (z : toks) (sc : text) (sv : option text) (ts1 : toks) 
+    (F : nat) (cases : list (text * (list stmt * impdata))) (ts2 : toks) (ss : list stmt) (imp' : impdata) (start : token) 
+    (f : nat) (b : list stmt) (imp : impdata) (y : toks),
+  eof_ended x ->
+  TwinParse.srun av sw ee (parse_format fc font ml ee) c script [] [] x b1 i1 z ->
+  curis PORYSWITCH z = true ->
+  poryswitch_header sw ee z = Parser.Ok (sc, sv, ts1) ->
+  5 * Datatypes.length z <= F ->
+  parse_pory_cases av sw ee (parse_format fc font ml ee) c F script [] [] (cur ts1) ts1 [] = Parser.Ok (cases, ts2) ->
+  pory_select cases sv = Some (ss, imp') ->
+  5 * Datatypes.length x + 3 <= f ->
+  parse_block av sw ee (parse_format fc font ml ee) c f script [] [] start x [] imp0 = Parser.Ok (b, imp, y) ->
+  exists
+    (pre : list token) (l : list (text * (list stmt * impdata))) (key : text) (l1 l2 : list (text * (list stmt * impdata))) 
+  (tsc ra tsn : toks) (body : list token) (b3 : list stmt) (i3 : impdata),
+    x = pre ++ z /\
+    cases = rev l /\
+    l = l1 ++ (key, (ss, imp')) :: l2 /\
+    assoc l2 key = None /\
+    (key = sval sv \/ key = t "_" /\ assoc l (sval sv) = None) /\
+    TwinParse.case_seq av sw ee (parse_format fc font ml ee) c script [] [] ts1 l1 tsc /\
+    TwinParse.case_at av sw ee (parse_format fc font ml ee) c script [] [] tsc key ss imp' ra tsn /\
+    TwinParse.case_seq av sw ee (parse_format fc font ml ee) c script [] [] tsn l2 ts2 /\
+    curis RBRACE ts2 = true /\
+    adv (adv tsc) = body ++ ra /\
+    b = b1 ++ ss ++ b3 /\
+    imp = impadd i1 (impadd imp' i3) /\
+    parse_block av sw ee (parse_format fc font ml ee) c f script [] [] start (adv ts2) [] imp0 = Parser.Ok (b3, i3, y) /\
+    (let rest := adv ts2 in
+     let s1 := Independence.sh z (body ++ rest) in
+     let s2 := Independence.sh ra rest in
+     Datatypes.length (pre ++ body ++ rest) < Datatypes.length x /\
+     parse_block av sw ee (parse_format fc font ml ee) c f script [] [] start (pre ++ body ++ rest) [] imp0 =
+     Parser.Ok
+       (map (Independence.g_stmt s1) b1 ++ map (Independence.g_stmt s2) ss ++ b3,
+        impadd (Independence.g_imp s1 i1) (impadd (Independence.g_imp s2 imp') i3), y)).
+Proof. exact TwinParse.twin_script_block_real. Qed.
+Print Assumptions twin_script_block_real.
+
+Theorem twin_block_step_real :
+  forall (av : list (text * autovar)) (sw : list (text * text)) (ee : bool) (fc : fontcfg) (font : text) (ml : Z) (c : list (text * text))
+    (script : text) (bs cs : list nat) (z : toks) (sc : text) (sv : option text) (ts1 : toks) (F : nat)
+    (cases : list (text * (list stmt * impdata))) (ts2 : toks) (ss : list stmt) (imp' : impdata),
+  eof_ended z ->
+  curis PORYSWITCH z = true ->
+  poryswitch_header sw ee z = Parser.Ok (sc, sv, ts1) ->
+  5 * Datatypes.length z <= F ->
+  parse_pory_cases av sw ee (parse_format fc font ml ee) c F script bs cs (cur ts1) ts1 [] = Parser.Ok (cases, ts2) ->
+  pory_select cases sv = Some (ss, imp') ->
+  exists
+    (l : list (text * (list stmt * impdata))) (key : text) (l1 l2 : list (text * (list stmt * impdata))) (tsc ra tsn : toks) 
+  (body : list token),
+    cases = rev l /\
+    l = l1 ++ (key, (ss, imp')) :: l2 /\
+    assoc l2 key = None /\
+    (key = sval sv \/ key = t "_" /\ assoc l (sval sv) = None) /\
+    TwinParse.case_seq av sw ee (parse_format fc font ml ee) c script bs cs ts1 l1 tsc /\
+    TwinParse.case_at av sw ee (parse_format fc font ml ee) c script bs cs tsc key ss imp' ra tsn /\
+    TwinParse.case_seq av sw ee (parse_format fc font ml ee) c script bs cs tsn l2 ts2 /\
+    curis RBRACE ts2 = true /\
+    adv (adv tsc) = body ++ ra /\
+    ra <> [] /\
+    Datatypes.length (adv ts2) < Datatypes.length ra /\
+    (forall (f : nat) (start : token) (acc : list stmt) (i : impdata),
+     5 * Datatypes.length z + 3 <= f ->
+     parse_block av sw ee (parse_format fc font ml ee) c f script bs cs start z acc i =
+     parse_block av sw ee (parse_format fc font ml ee) c f script bs cs start (adv ts2) (acc ++ ss) (impadd i imp')) /\
+    (let rest := adv ts2 in
+     let s := Independence.sh ra rest in
+     TwinParse.LA ra rest ->
+     cs = [] \/ TwinParse.LC ra rest ->
+     TwinParse.srun av sw ee (parse_format fc font ml ee) c script (map s bs) (map s cs) (body ++ rest) (map (Independence.g_stmt s) ss)
+       (Independence.g_imp s imp') rest /\
+     (forall (f : nat) (start : token) (acc : list stmt) (i : impdata),
+      5 * Datatypes.length (body ++ rest) + 3 <= f ->
+      parse_block av sw ee (parse_format fc font ml ee) c f script (map s bs) (map s cs) start (body ++ rest) acc i =
+      parse_block av sw ee (parse_format fc font ml ee) c f script (map s bs) (map s cs) start rest (acc ++ map (Independence.g_stmt s) ss)
+        (impadd i (Independence.g_imp s imp')))).
+Proof. exact TwinParse.twin_block_step_real. Qed.
+Print Assumptions twin_block_step_real.
+
+Theorem block_pory_step_real :
+  forall (av : list (text * autovar)) (sw : list (text * text)) (ee : bool) (fc : fontcfg) (font : text) (ml : Z) (c : list (text * text))
+    (script : text) (bs cs : list nat) (z : toks) (sc : text) (sv : option text) (ts1 : toks) (F : nat)
+    (cases : list (text * (list stmt * impdata))) (ts2 : toks),
+  eof_ended z ->
+  curis PORYSWITCH z = true ->
+  poryswitch_header sw ee z = Parser.Ok (sc, sv, ts1) ->
+  5 * Datatypes.length z <= F ->
+  parse_pory_cases av sw ee (parse_format fc font ml ee) c F script bs cs (cur ts1) ts1 [] = Parser.Ok (cases, ts2) ->
+  forall (f : nat) (start : token) (acc : list stmt) (i : impdata),
+  5 * Datatypes.length z + 3 <= f ->
+  parse_block av sw ee (parse_format fc font ml ee) c f script bs cs start z acc i =
+  match pory_select cases sv with
+  | Some (ss, imp') => parse_block av sw ee (parse_format fc font ml ee) c f script bs cs start (adv ts2) (acc ++ ss) (impadd i imp')
+  | None =>
+      if ee
+      then err_tok (cur z) "no poryswitch case found"
+      else parse_block av sw ee (parse_format fc font ml ee) c f script bs cs start (adv ts2) acc i
+  end.
+Proof. exact TwinParse.block_pory_step_real. Qed.
+Print Assumptions block_pory_step_real.
+
